@@ -14,7 +14,7 @@ func init() {
 	register(&propDef{
 		ID:      "C08",
 		Level:   "other",
-		Explain: "Forwarding-header rules. Sites are found by ROLE in the region of HTTPProxy.ServeHTTP (ServeHTTP, the helpers of package proxy and its sub-packages it calls, their closures), not by function name: a header write is a Set/Add/Del of http.Header on a value that is Request.Header (or a copy / helper parameter passed it), keyed by a constant or by a field of config.Proxy; keys, values and guarding conditions that reach a helper as parameters (setIfAbsent(h, key, value), a bool isTLS) are evaluated per call site. (A1) the authoritative headers (configured client-IP header, configured TLS header) are written with Set, under no condition that depends on a header the client sent (conditions under which the request is not forwarded at all do not count), with a value derived only from RemoteAddr / r.TLS / configuration; the TLS header is Set on the r.TLS != nil edge and Del'd on the other edge or unconditionally in front of the Set (exhaustive); (A2) the default-if-absent headers (X-Real-Ip, X-Forwarded-Proto/-Port/-Host) are written only where Get(sameKey) == \"\" is known and their values derive from the connection (net.SplitHostPort of RemoteAddr) or the request's Host (net.SplitHostPort of Request.Host for the port); (O1) in no function of the region can a store to r.Host (direct or inside a helper) be followed by the derivation of X-Forwarded-Host/-Port/Forwarded (direct or inside a helper): they must describe the host the client asked for, also for host= routes; (X1) every test of the Upgrade header in package proxy compares against the same constant set (==, switch, slices.Contains, a predicate on the value), and the functions that write X-Forwarded-For or produce the ws/wss scheme reach such a test; (X2) the value Set as X-Forwarded-For ends with the peer (last operand of the concatenation / strings.Join(append(prior, peer)) / Sprintf / helper result); (S1) Strict-Transport-Security is written only where r.TLS != nil is known, on the response; (R1) the request-id header is Set from the generator under no client-dependent condition; (P1) nothing in package proxy separates host and port of Request.Host / RemoteAddr with a bare ':' search (IPv6 literals) - net.SplitHostPort is used; (X3) the X-Forwarded-For write and the choice of the raw tunnel (code that hijacks the connection, found by role) are control dependent on the same request header (Upgrade only); (A3) the for= element fabio itself puts into Forwarded (\"for=\"+x, Sprintf(\"for=%s\"), else the whole value written) derives from RemoteAddr and from no client header. Not decided: the textual format of Forwarded and of the port/protocol values (string contents).",
+		Explain: "Forwarding-header rules. Sites are found by ROLE in the region of HTTPProxy.ServeHTTP (ServeHTTP, the helpers of package proxy and its sub-packages it calls, their closures), not by function name: a header write is a Set/Add/Del of http.Header on a value that is Request.Header (or a copy / helper parameter passed it), keyed by a constant or by a field of config.Proxy; keys, values and guarding conditions that reach a helper as parameters (setIfAbsent(h, key, value), a bool isTLS) are evaluated per call site; small carrier types of package proxy (a struct carrying the peer address, the host, a secure / websocket flag, the connection state, the header map or a header name from one step to the next) are followed field-sensitively by type and field (every store to that field; for a negative verdict no instance built without it); a write in a loop over a literal table of {key, value} rows is instantiated per row; text assembled in a strings.Builder derives from what is written into it. (A1) the authoritative headers (configured client-IP header, configured TLS header) are written with Set, under no condition that depends on a header the client sent (conditions under which the request is not forwarded at all do not count), with a value derived only from RemoteAddr / r.TLS / configuration; the TLS header is Set on the r.TLS != nil edge and Del'd on the other edge or unconditionally in front of the Set (exhaustive); (A2) the default-if-absent headers (X-Real-Ip, X-Forwarded-Proto/-Port/-Host) are written only where Get(sameKey) == \"\" is known and their values derive from the connection (net.SplitHostPort of RemoteAddr) or the request's Host (net.SplitHostPort of Request.Host for the port); (O1) in no function of the region can a store to r.Host (direct or inside a helper) be followed by the derivation of X-Forwarded-Host/-Port/Forwarded (direct or inside a helper): they must describe the host the client asked for, also for host= routes; (X1) every test of the Upgrade header in package proxy compares against the same constant set (==, switch, slices.Contains, a predicate on the value), the X-Forwarded-For write is control dependent on the Upgrade header, and every production of the ws/wss scheme (returned, merged, stored, concatenated, or looked up in a package-level table) is control dependent on it - in the producing function or, for a connScheme(websocket, secure bool) that is told, through what every caller passes - or at least its function goes through such a test; (X2) the value Set as X-Forwarded-For ends with the peer (last operand of the concatenation / strings.Join(append(prior, peer)) / Sprintf / helper result); (S1) Strict-Transport-Security is written only where r.TLS != nil is known, on the response; (R1) the request-id header is Set from the generator under no client-dependent condition; (P1) nothing in package proxy separates host and port of Request.Host / RemoteAddr with a bare ':' search (IPv6 literals) - net.SplitHostPort is used; (X3) the X-Forwarded-For write and the choice of the raw tunnel (code that hijacks the connection, found by role) are control dependent on the same request header (Upgrade only); (A3) the for= element fabio itself puts into Forwarded (\"for=\"+x, Sprintf(\"for=%s\"), else the whole value written) derives from RemoteAddr and from no client header. Not decided: the textual format of Forwarded and of the port/protocol values (string contents).",
 		Run:     runC08,
 		Trusted: []string{"net/http sets Request.RemoteAddr to the peer's ip:port and Request.TLS iff the connection used TLS", "httputil.ReverseProxy appends the peer address to X-Forwarded-For for non-upgrade requests"},
 		Mutants: []mutant{
@@ -98,7 +98,7 @@ func init() {
 // dependsOnClientHeader: the value derives from a Header.Get / Values / map lookup on the request's headers.
 func dependsOnClientHeader(v ssa.Value) (string, bool) {
 	key := ""
-	ok := derives(v, func(x ssa.Value) bool {
+	ok := c08derives(v, func(x ssa.Value) bool {
 		if call, isC := x.(*ssa.Call); isC {
 			n := calleeName(&call.Call)
 			if (n == "(net/http.Header).Get" || n == "(net/http.Header).Values") && len(call.Call.Args) >= 2 && c08reqHeader(call.Call.Args[0]) {
@@ -121,12 +121,12 @@ func dependsOnClientHeader(v ssa.Value) (string, bool) {
 
 // fromRemoteAddr: the value derives from the host part net.SplitHostPort cuts out of Request.RemoteAddr.
 func fromRemoteAddr(v ssa.Value) bool {
-	return derives(v, func(x ssa.Value) bool {
+	return c08derives(v, func(x ssa.Value) bool {
 		call, ok := x.(*ssa.Call)
 		if !ok || calleeName(&call.Call) != "net.SplitHostPort" || len(call.Call.Args) < 1 {
 			return false
 		}
-		return derives(call.Call.Args[0], func(y ssa.Value) bool {
+		return c08derives(call.Call.Args[0], func(y ssa.Value) bool {
 			_, isRA := fieldOf(y, "http.Request", "RemoteAddr")
 			return isRA
 		})
@@ -135,7 +135,7 @@ func fromRemoteAddr(v ssa.Value) bool {
 
 // c08fromRequestHost: the value derives from Request.Host (the host the client asked for).
 func c08fromRequestHost(v ssa.Value) bool {
-	return derives(v, func(x ssa.Value) bool {
+	return c08derives(v, func(x ssa.Value) bool {
 		_, ok := fieldOf(x, "http.Request", "Host")
 		return ok
 	})
@@ -143,7 +143,7 @@ func c08fromRequestHost(v ssa.Value) bool {
 
 // c08portOfRequestHost: the value derives from the port net.SplitHostPort cuts out of Request.Host.
 func c08portOfRequestHost(v ssa.Value) bool {
-	return derives(v, func(x ssa.Value) bool {
+	return c08derives(v, func(x ssa.Value) bool {
 		call, ok := x.(*ssa.Call)
 		return ok && calleeName(&call.Call) == "net.SplitHostPort" && len(call.Call.Args) >= 1 && c08fromRequestHost(call.Call.Args[0])
 	})
@@ -156,6 +156,7 @@ func runC08(c *Ctx) {
 	}
 	// everything ServeHTTP does to the request before it hands it to the upstream handler: ServeHTTP, the helpers of
 	// package proxy it calls (transitively) and their closures - however the work is cut into functions
+	c08setCtx(c)
 	reg := c08region(c, 6, serve)
 	writes := c08writes(reg)
 	tlsNonNil, tlsNil := c08tlsAtom(true), c08tlsAtom(false)
@@ -200,7 +201,7 @@ func runC08(c *Ctx) {
 			isVal := false
 			if f, ok := c08cfgField(val); ok && f == "TLSHeaderValue" {
 				isVal = true
-			} else if val != nil && derives(val, func(x ssa.Value) bool { f, ok := c08cfgField(x); return ok && f == "TLSHeaderValue" }) {
+			} else if val != nil && c08derives(val, func(x ssa.Value) bool { f, ok := c08cfgField(x); return ok && f == "TLSHeaderValue" }) {
 				_, dep := c08clientDep(val, vctx)
 				isVal = !dep
 			}
@@ -312,20 +313,29 @@ func runC08(c *Ctx) {
 	c.atLeast("C08.X2", "X-Forwarded-For writes on the request", nXFF, 1)
 
 	// ---- S1
+	// every Set/Add of Strict-Transport-Security in package proxy and its sub-packages; the key may reach a generic
+	// set(h, key, value) helper as a parameter (one instance per call chain, receiver and guard resolved in that chain)
 	nSTS := 0
 	for _, f := range c.AllFns {
 		if !c08family(c, f) {
 			continue
 		}
 		eachInstr(f, func(i ssa.Instruction) {
-			for _, m := range []string{"Set", "Add"} {
-				k, cc, ok := headerCall(i, m)
-				if !ok || k != "Strict-Transport-Security" {
+			cc := callCommon(i)
+			if cc == nil || cc.IsInvoke() || len(cc.Args) < 2 {
+				return
+			}
+			if n := calleeName(cc); n != "(net/http.Header).Set" && n != "(net/http.Header).Add" {
+				return
+			}
+			for _, ka := range c08keys(cc.Args[1], nil, 0) {
+				if ka.key != (c08key{"const", "Strict-Transport-Security"}) {
 					continue
 				}
 				nSTS++
-				nn := c08known(i.Block(), nil, tlsNonNil, 0)
-				onResp := !c08reqHeader(cc.Args[0])
+				nn := c08known(i.Block(), ka.ctx, tlsNonNil, 0)
+				recv, _ := c08arg(cc.Args[0], ka.ctx)
+				onResp := !c08reqHeader(recv)
 				c.check("C08.S1", fnKey(f)+"|HSTS only on TLS connections, on the response", i.Pos(), nn && onResp,
 					"Strict-Transport-Security must be written to the response only on the r.TLS != nil edge (RFC 6797: never over plain HTTP)")
 			}
@@ -361,7 +371,7 @@ func runC08(c *Ctx) {
 			}
 			n := calleeName(&call.Call)
 			isHostish := func(v ssa.Value) bool {
-				return derives(v, func(x ssa.Value) bool {
+				return c08derives(v, func(x ssa.Value) bool {
 					if _, ok := fieldOf(x, "http.Request", "Host"); ok {
 						return true
 					}
@@ -548,6 +558,24 @@ func c08upgradeConsts(call *ssa.Call, ctx c08ctx) string {
 				walk(x, d+1)
 			case *ssa.Convert:
 				walk(x, d+1)
+			case *ssa.Return:
+				// the Get sits in an accessor of a wrapper type (func (rh *reqHeaders) get(key string) string): the
+				// value is what the accessor's callers compare
+				fn := x.Parent()
+				if len(x.Results) != 1 || fn == nil {
+					continue
+				}
+				if len(ctx) > 0 && ctx[0].Common().StaticCallee() == fn {
+					if cv := ctx[0].Value(); cv != nil {
+						walk(cv, d+1)
+					}
+					continue
+				}
+				for _, s := range c08sitesOf(fn) {
+					if cv := s.Value(); cv != nil {
+						walk(cv, d+1)
+					}
+				}
 			}
 		}
 	}
@@ -677,11 +705,23 @@ func runC08X1(c *Ctx, serve *ssa.Function, reg []*ssa.Function, writes []*c08wri
 		why = " (X-Forwarded-For write decided by [" + depsStr(xffDeps) + "])"
 	}
 	for _, f := range reg {
-		produces := false
+		// the places of f where a "ws"/"wss" is produced: returned, merged into a result, stored or concatenated - not
+		// one that is compared against. Each with the block whose reaching decides that this scheme is produced.
+		var prod []*ssa.BasicBlock
 		eachInstr(f, func(i ssa.Instruction) {
-			// a "ws"/"wss" that is returned, merged into a result or concatenated - not one that is compared against
+			isWS := func(v ssa.Value) bool {
+				s, ok := constString(v)
+				return ok && (s == "ws" || s == "wss")
+			}
 			switch x := i.(type) {
-			case *ssa.Return, *ssa.Phi, *ssa.Store:
+			case *ssa.Phi:
+				for k, e := range x.Edges {
+					if isWS(e) {
+						prod = append(prod, x.Block().Preds[k])
+					}
+				}
+				return
+			case *ssa.Return, *ssa.Store:
 			case *ssa.BinOp:
 				if x.Op != token.ADD {
 					return
@@ -690,28 +730,218 @@ func runC08X1(c *Ctx, serve *ssa.Function, reg []*ssa.Function, writes []*c08wri
 				return
 			}
 			for _, op := range i.Operands(nil) {
-				if op == nil || *op == nil {
-					continue
-				}
-				if s, ok := constString(*op); ok && (s == "ws" || s == "wss") {
-					produces = true
+				if op != nil && *op != nil && isWS(*op) {
+					prod = append(prod, i.Block())
 				}
 			}
 		})
-		if !produces {
+		if len(prod) == 0 {
 			continue
 		}
 		nScheme++
-		if !reachesSite(f) {
+		// every production is decided by the Upgrade header: reaching it is control dependent on a value read from
+		// that header - in this function, or (a connScheme(websocket, secure bool) that is told) through a parameter
+		// in all its callers. Else at least the function itself goes through one of the test sites.
+		decided := true
+		for _, b := range prod {
+			if !c08upgradeDecides(b, f) {
+				decided = false
+			}
+		}
+		if !decided && !reachesSite(f) {
 			okAll = false
 			why += " (" + fnKey(f) + " produces the ws/wss scheme without looking at the Upgrade header)"
 		}
+	}
+	// a scheme table kept in a package-level variable (var connSchemes = map[connKind]string{...: "wss", ...}): the
+	// production is the element access, decided by the Upgrade header if the key / index (or reaching it) depends on it
+	for _, g := range c08schemeTables(c) {
+		eachInstrOf(reg, func(f *ssa.Function, i ssa.Instruction) {
+			var key ssa.Value
+			switch x := i.(type) {
+			case *ssa.Lookup:
+				if u, ok := x.X.(*ssa.UnOp); ok && u.X == ssa.Value(g) {
+					key = x.Index
+				}
+			case *ssa.Index:
+				if u, ok := x.X.(*ssa.UnOp); ok && u.X == ssa.Value(g) {
+					key = x.Index
+				}
+			case *ssa.IndexAddr:
+				if x.X == ssa.Value(g) {
+					key = x.Index
+				} else if u, ok := x.X.(*ssa.UnOp); ok && u.X == ssa.Value(g) {
+					key = x.Index
+				}
+			}
+			if key == nil {
+				return
+			}
+			nScheme++
+			if !c08deps(key, nil)["Upgrade"] && !c08upgradeDecides(i.Block(), f) && !reachesSite(f) {
+				okAll = false
+				why += " (" + fnKey(f) + " takes the ws/wss scheme from " + g.Name() + " without looking at the Upgrade header)"
+			}
+		})
 	}
 	c.atLeast("C08.X1", "functions producing the ws/wss scheme", nScheme, 1)
 	c.atLeast("C08.X1", "X-Forwarded-For writes on the request", nXFF, 1)
 	c.check("C08.X1", "package proxy|tunnel decision, X-Forwarded-For handling and scheme detection all decide on the Upgrade header", serve.Pos(), okAll && nScheme >= 1 && nXFF >= 1,
 		"the tunnel decision, the X-Forwarded-For handling and the scheme detection must all look at the Upgrade header"+why)
 	return xffDeps
+}
+
+// c08schemeTables: the package-level variables of package proxy and its sub-packages whose initialiser puts a "ws" / "wss"
+// constant into them (a map, slice or array of schemes).
+func c08schemeTables(c *Ctx) []*ssa.Global {
+	var out []*ssa.Global
+	seen := map[*ssa.Global]bool{}
+	root := func(v ssa.Value) ssa.Value {
+		for k := 0; k < 8; k++ {
+			switch x := v.(type) {
+			case *ssa.IndexAddr:
+				v = x.X
+			case *ssa.FieldAddr:
+				v = x.X
+			case *ssa.Slice:
+				v = x.X
+			case *ssa.ChangeType:
+				v = x.X
+			case *ssa.MakeInterface:
+				v = x.X
+			case *ssa.UnOp:
+				if _, isG := x.X.(*ssa.Global); isG {
+					return v
+				}
+				v = x.X
+			default:
+				return v
+			}
+		}
+		return v
+	}
+	sp := c.spkg("proxy")
+	if sp == nil {
+		return nil
+	}
+	// the synthetic package initialisers (not among c.AllFns) of package proxy and its sub-packages
+	var inits []*ssa.Function
+	for _, pk := range c.Prog.AllPackages() {
+		if pk.Pkg == nil || !(pk == sp || strings.HasPrefix(pk.Pkg.Path(), sp.Pkg.Path()+"/")) {
+			continue
+		}
+		if f := pk.Func("init"); f != nil && len(f.Blocks) > 0 {
+			inits = append(inits, f)
+		}
+	}
+	for _, f := range inits {
+		// the objects of the initialiser that receive a ws/wss constant
+		holders := map[ssa.Value]bool{}
+		eachInstr(f, func(i ssa.Instruction) {
+			var val, into ssa.Value
+			switch x := i.(type) {
+			case *ssa.MapUpdate:
+				val, into = x.Value, x.Map
+			case *ssa.Store:
+				val, into = x.Val, x.Addr
+			default:
+				return
+			}
+			if s, ok := constString(val); ok && (s == "ws" || s == "wss") {
+				holders[root(into)] = true
+			}
+		})
+		if len(holders) == 0 {
+			continue
+		}
+		add := func(g *ssa.Global) {
+			if !seen[g] {
+				seen[g] = true
+				out = append(out, g)
+			}
+		}
+		for h := range holders {
+			if g, ok := h.(*ssa.Global); ok {
+				add(g)
+			}
+		}
+		eachInstr(f, func(i ssa.Instruction) {
+			st, ok := i.(*ssa.Store)
+			if !ok {
+				return
+			}
+			if g, isG := root(st.Addr).(*ssa.Global); isG && holders[root(st.Val)] {
+				add(g)
+			}
+		})
+	}
+	return out
+}
+
+// c08upgradeDecides: reaching block b of f is control dependent on the client's Upgrade header - through the conditions
+// in f and, where these are parameters of f (a connScheme(websocket, secure bool) that is told), through what EVERY
+// static caller passes for them.
+func c08upgradeDecides(b *ssa.BasicBlock, f *ssa.Function) bool {
+	ctls := c08ctlLocal(b, nil)
+	viaParam := false
+	for _, ctl := range ctls {
+		if c08mentionsParam(ctl.cond, f) {
+			viaParam = true
+		}
+	}
+	sites := c08sitesOf(f)
+	if !viaParam || !onlyStaticallyCalled(f) || len(sites) == 0 {
+		for _, ctl := range ctls {
+			if c08deps(ctl.cond, nil)["Upgrade"] {
+				return true
+			}
+		}
+		return false
+	}
+	for _, s := range sites {
+		ok := false
+		for _, ctl := range ctls {
+			if c08deps(ctl.cond, c08ctx{s})["Upgrade"] {
+				ok = true
+			}
+		}
+		// or the call itself is made only on a decision about the Upgrade header
+		if !ok && s.Block() != nil && c08factDeps(s.Block(), nil)["Upgrade"] {
+			ok = true
+		}
+		if !ok {
+			return false
+		}
+	}
+	return true
+}
+
+// c08mentionsParam: the boolean condition is built (through !, &&, ||, comparisons) from a parameter of f.
+func c08mentionsParam(cond ssa.Value, f *ssa.Function) bool {
+	seen := map[ssa.Value]bool{}
+	var walk func(v ssa.Value, d int) bool
+	walk = func(v ssa.Value, d int) bool {
+		if v == nil || seen[v] || d > 8 {
+			return false
+		}
+		seen[v] = true
+		switch x := v.(type) {
+		case *ssa.Parameter:
+			return x.Parent() == f
+		case *ssa.UnOp:
+			return walk(x.X, d+1)
+		case *ssa.BinOp:
+			return walk(x.X, d+1) || walk(x.Y, d+1)
+		case *ssa.Phi:
+			for _, e := range x.Edges {
+				if walk(e, d+1) {
+					return true
+				}
+			}
+		}
+		return false
+	}
+	return walk(cond, 0)
 }
 
 // c08tails: the values that can be the LAST component of a string built by concatenation, strings.Join,
@@ -903,6 +1133,23 @@ func runC08A3(c *Ctx, reg []*ssa.Function, writes []*c08write) {
 				checkFor(f, x.Pos(), x.Y)
 			}
 		case *ssa.Call:
+			// b.WriteString("for="); b.WriteString(peer)  (strings.Builder / bytes.Buffer): the next write to the same builder
+			if cn := calleeName(&x.Call); (cn == "(*strings.Builder).WriteString" || cn == "(*bytes.Buffer).WriteString") && len(x.Call.Args) == 2 {
+				if s, isS := constString(x.Call.Args[1]); isS && strings.HasSuffix(s, "for=") {
+					instrs := x.Block().Instrs
+					for k := instrIndex(x) + 1; k >= 1 && k < len(instrs); k++ {
+						cc := callCommon(instrs[k])
+						if cc == nil || cc.IsInvoke() || len(cc.Args) != 2 || cc.Args[0] != x.Call.Args[0] {
+							continue
+						}
+						if n2 := calleeName(cc); strings.HasPrefix(n2, "(*strings.Builder).Write") || strings.HasPrefix(n2, "(*bytes.Buffer).Write") {
+							checkFor(f, instrs[k].Pos(), cc.Args[1])
+							break
+						}
+					}
+				}
+				return
+			}
 			// fmt.Sprintf("for=%s; proto=%s", peer, proto)
 			if calleeName(&x.Call) != "fmt.Sprintf" || len(x.Call.Args) != 2 {
 				return
